@@ -2,7 +2,7 @@
    Only statements; proofs by reference (proofs/RotateProofs.v).  Model: model/Rotate.v
    (ctrl/qryn/maintenance/rotate.go: Rotate, rotateTables, storagePolicyUpdate, forgetSetting, get/putSetting). *)
 From Coq Require Import List ZArith Bool String.
-From Qryn Require Import model.Rotate model.RotateCfg model.RotateConc model.RotateClock model.RotateStamp proofs.RotateProofs proofs.RotateCfgProofs proofs.RotateManyProofs proofs.RotateConcProofs proofs.RotateConcFaultProofs proofs.RotateClockProofs proofs.RotateStampProofs.
+From Qryn Require Import model.Rotate model.RotateCfg model.RotateConc model.RotateClock model.RotateStamp proofs.RotateProofs proofs.RotateCfgProofs proofs.RotateManyProofs proofs.RotateClusterProofs proofs.RotateConcProofs proofs.RotateConcFaultProofs proofs.RotateClockProofs proofs.RotateStampProofs.
 Import ListNotations.
 Open Scope string_scope.
 Open Scope list_scope.
@@ -348,6 +348,29 @@ Theorem rotate_all_many_databases : forall parse,
                      rotate_all parse os f (ds k) = (l, ok, ds' k) /\ forall i, i <> k -> ds' i = ds i).
 Proof. intro parse. split; [exact (rotate_all_m_consistent parse)|exact (rotate_all_m_one parse)]. Qed.
 Print Assumptions rotate_all_many_databases.
+
+(* Round 8 (seeded C19-h).  Two objects naming DIFFERENT databases - on one ClickHouse cluster or not; the cluster name
+   plays no part - leave BOTH databases at their own object's configuration. *)
+Theorem several_databases_on_one_cluster_all_converge : forall parse i j o1 o2 c1 c2 ds,
+  i <> j -> (forall k, consistent (ds k)) -> config_of parse o1 = Some c1 -> config_of parse o2 = Some c2 ->
+  let '(l, ok, ds') := rotate_all_m parse [(i, o1); (j, o2)] None ds in
+  ok = true /\ converged c1 (ds' i) /\ converged c2 (ds' j).
+Proof. exact two_databases_both_converge. Qed.
+Print Assumptions several_databases_on_one_cluster_all_converge.
+
+(* The variant "one pass per cluster name" (RotateAll skipping an object whose non-empty cluster_name was already rotated
+   in this pass, whatever database it names) is refuted under the very hypotheses of
+   every_database_converges_to_its_own_configuration: it reports success, its statements are those of the first
+   object alone, the second database keeps its creation-time TTL and is not converged.  (ON CLUSTER reaches every node,
+   not every database.) *)
+Theorem one_pass_per_cluster_name_is_refuted :
+  (forall i : nat, consistent ((fun _ : nat => fresh) i)) /\ Forall (fun x => config_of cl_parse (snd x) <> None) cl_os /\
+  let '(l, ok, ds') := rotate_all_skip cl_parse cl_os [] None (fun _ : nat => fresh) in
+  ok = true /\ l = fst (fst (rotate_all_m cl_parse [hd (0%nat, {| o_cluster := ""; o_ttl_policy := []; o_ttl_days := 0; o_storage_policy := "" |}) cl_os] None (fun _ : nat => fresh))) /\
+  d_ttl (ds' 2%nat) SamplesV3 = "<initial>" /\
+  exists cfg, last_cfg cl_parse cl_os 2%nat = Some cfg /\ ~ converged cfg (ds' 2%nat).
+Proof. exact once_per_cluster_name_refuted. Qed.
+Print Assumptions one_pass_per_cluster_name_is_refuted.
 
 (* "After initialisation": func initDB (main.go) = boolEnv; ctrl.Init; ctrl.Rotate, panicking on every error.  When the
    variable boolEnv reads is a word for false (or unset), ctrl.Init succeeds, every timeout parses and nothing
